@@ -266,6 +266,24 @@ def main():
                 rc_ = re.sub(r'struct (\w+)', lambda mm: "struct(%d bytes)" % rl[mm.group(1)][0], rc_)
                 if cc != rc_:
                     problems.append("field %s: machine type C=%s Rust=%s" % (cn, cc, rc_))
+            # a field that carries the same name on both sides designates the same datum: it must be the same bytes of every image
+            # (fields named differently are matched by position only - names are not part of the ABI)
+            cby = {cn: (coff, csz) for cn, coff, csz, _ in cf}
+            for rn, rty in fs:
+                if rn in cby and rn in rf and cby[rn][1] == rf[rn][1]:
+                    coff, csz = cby[rn]
+                    roff, rsz = rf[rn]
+                    solver.push()
+                    solver.add(z3.Extract(8 * (coff + csz) - 1, 8 * coff, M) != z3.Extract(8 * (roff + rsz) - 1, 8 * roff, M))
+                    r = solver.check()
+                    nq += 1
+                    if r == z3.sat:
+                        msg = "field %s: same name at offset C=%d Rust=%d; byte image %#x is read differently" % (rn, coff, roff, solver.model().eval(M, model_completion=True).as_long())
+                        if not any(q.startswith("field %s:" % rn) for q in problems):
+                            problems.append(msg)
+                    elif r != z3.unsat:
+                        res.error("solver unknown on %s.%s (by name)" % (rs, rn))
+                    solver.pop()
             if problems:
                 rp = res.save_replay("%s_%s.txt" % (rs, tag), "C (%s, gcc/clang from current headers): size %d align %d fields %s\nRust (rustc from current src/lib.rs): size %d align %d fields %s\n%s\n"
                                      % (cs, csize, calign, cf, rsize, ralign, [(n, rf[n]) for n, _ in fs if n in rf], "\n".join(problems)))
